@@ -311,6 +311,9 @@ def check(P, R, tier):
         m = re.match(r"(\S+) -> (\S+) @", key[2])
         if m:
             sites.setdefault(m.group(2), set()).update(t for t in tagset if t)
+    import hijridecode
+    nh = hijridecode.run_parallel(R, P, "RF2-hijri", jobs=14)
+    R.floor("RF2-hijri", "decoded Hijri lengths / fix-ups / conversions", nh, 25000)
     import fmtdecode
     nf2 = fmtdecode.run_parallel(R, P, "RF2-fmt", every=(tier == "thorough"), jobs=14, parse=False, reprs=True)
     R.floor("RF2-fmt", "texts printed from the non-ymd representations", nf2, 20000)
